@@ -154,7 +154,21 @@ def chk_fault(case):
     return []
 
 
-CASES = {"entropy": chk_entropy, "phrase": chk_phrase, "seed": chk_seed, "fault": chk_fault}
+def chk_seedfast(case):
+    """as chk_seed, with hashlib's PBKDF2 as the arithmetic (the hand-rolled one in the reference is validated against it by
+    the selftest) - what is compared is the normalisation of the arguments"""
+    import hashlib
+    import unicodedata
+    import bits.bips.bip39 as b39
+    got = call(b39.to_seed, case["phrase"], case["pass"])
+    exp = hashlib.pbkdf2_hmac("sha512", unicodedata.normalize("NFKD", case["phrase"]).encode(),
+                              ("mnemonic" + unicodedata.normalize("NFKD", case["pass"])).encode(), 2048)
+    if got != ("ok", exp):
+        return [("C10/seed/nfkd", f"to_seed(.., passphrase={case['pass']!r} (U+{ord(case['pass'][-1]):04X})) = {str(got)[:60]}, expected {exp.hex()[:24]}..")]
+    return []
+
+
+CASES = {"seedfast": chk_seedfast, "entropy": chk_entropy, "phrase": chk_phrase, "seed": chk_seed, "fault": chk_fault}
 
 
 def run_case(kind, case):
@@ -203,6 +217,9 @@ def jobs(tier, seed):
         for n in LENS:
             for pos in range(n * 3 // 4):
                 js.append({"name": f"position/{n}/{pos}", "part": "pos", "n": n, "pos": pos, "weight": 6})
+    js.append({"name": "unicode-words", "part": "uniwords", "weight": 3})
+    for sh in range(8):
+        js.append({"name": f"seed-nfkd/{sh}", "part": "seednfkd", "shard": [sh, 8], "weight": 6})
     from vf.runner import seq_jobs
     js += seq_jobs(3, weight=3)
     from vf.runner import concur_jobs
@@ -296,6 +313,38 @@ def run_job(job):
                         acc.nontrivial += 1
                         acc.ob("non_list_word")
                         acc.check("phrase", {"phrase": " ".join(ws[:pos] + [t] + ws[pos + 1:]), "what": f"typo {t!r} for {w0!r} at {pos}"}, chk_phrase)
+    elif part == "uniwords":
+        # a word replaced by a string that is NOT in the list but that Unicode normalisation / case mapping turns into it
+        # (full-width, ligatures, long s, mathematical letters, upper case): the sequence must be refused
+        from vf.classes import word_lookalikes
+        n = 0
+        for ph in (base_phrases(seed, 16)[0], base_phrases(seed, 32)[0], "abandon " * 11 + "about", "fine " * 11 + "fine", "stay " * 11 + "stay"):
+            ws = ph.split()
+            for pos, w0 in enumerate(ws):
+                for t in word_lookalikes(w0):
+                    if t in R.words():
+                        continue
+                    n += 1
+                    acc.evaluations += 1
+                    acc.nontrivial += 1
+                    acc.ob("non_list_word")
+                    acc.check("phrase", {"phrase": " ".join(ws[:pos] + [t] + ws[pos + 1:]), "what": f"Unicode lookalike {t!r} for {w0!r} at {pos}"}, chk_phrase)
+        acc.sample({"unicode_lookalike_words": n})
+    elif part == "seednfkd":
+        # EVERY code point whose NFKD form differs from itself, as a one-character passphrase (the whole domain on which
+        # 'NFKD(passphrase)' is not the identity, with the interpreter's current Unicode tables)
+        from vf.classes import decomposing_code_points
+        sh, nsh = job["shard"]
+        cps = decomposing_code_points()
+        ph = base_phrases(seed, 16)[0]
+        for i, cp in enumerate(cps):
+            if i % nsh != sh:
+                continue
+            acc.evaluations += 1
+            acc.nontrivial += 1
+            acc.ob("nfkd_passphrase")
+            acc.check("seedfast", {"phrase": ph, "pass": "p" + chr(cp)}, chk_seedfast)
+        acc.sample({"decomposing_code_points": len(cps), "shard": job["shard"]})
     elif part == "seed":
         phrases = [base_phrases(seed, 16)[0], base_phrases(seed, 32)[0], "abandon " * 11 + "about"]
         passes = [None, "", "TREZOR", "ｐａｓｓ", "é", "é", " ", "a" * 100, "ÅΩ"]
